@@ -73,6 +73,7 @@ func TestGPG(t *testing.T) {
 	var mu sync.Mutex
 	counts := map[string]int{}
 	var examples []map[string]any
+	nExplained := 0
 	cases := gpgCases(n)
 	sem := make(chan struct{}, 8)
 	var wg sync.WaitGroup
@@ -152,14 +153,35 @@ func TestGPG(t *testing.T) {
 				for _, f := range judgeSelection(e, key, ok, tnow, true) {
 					why = append(why, f.sig)
 				}
+				// laxities of the package that are modelled as they are (DESIGN.md 13, X08, observations)
+				if class != "agree" && len(why) == 0 {
+					primExpired := false
+					for _, id := range e.Identities {
+						primExpired = primExpired || rfcExpired(e.PrimaryKey, id.SelfSignature, tnow)
+					}
+					switch {
+					case class == "gpg_refuses_package_encrypts" && primExpired && goKey != "P":
+						why = append(why, "observation:primary-key-expired-subkey-still-used")
+					case class == "different_key" && goKey != "P" && gpgKey != "P":
+						why = append(why, "observation:newest-subkey-by-binding-signature-not-by-key-creation")
+					}
+				}
 				mu.Lock()
 				out.Case(fmt.Sprintf("gpg:%d@%d", ci, now))
 				counts["x08_gpg_"+class]++
 				if class != "agree" {
-					if len(why) > 0 {
+					switch {
+					case len(why) == 0:
+						counts["x08_gpg_disagreements_unexplained"]++
+					case strings.HasPrefix(why[0], "observation:"):
+						counts["x08_gpg_disagreements_explained_by_observations"]++
+					default:
 						counts["x08_gpg_disagreements_explained_by_findings"]++
 					}
-					if len(examples) < 10 {
+					if (len(why) > 0 && nExplained < 4) || (len(why) == 0 && len(examples) < 14) {
+						if len(why) > 0 {
+							nExplained++
+						}
 						msg := strings.TrimSpace(se)
 						if len(msg) > 300 {
 							msg = msg[:300]
